@@ -12,9 +12,11 @@ RULE = ("finite-domain enumeration, every case distinct by construction (index t
         "length <= 4|5 over 27 (type,id) objects and <= 3|4 over 81 (type,id,version,timestamp) objects x 4 comparators: "
         "ObjectPointerCollection::sort gives a sorted permutation, CheckOrder accepts it <=> ids distinct, and after "
         "unique(object_equal_type_id) always. Non-trivial = pair/triple with at least two distinct objects (index tuples not all equal), "
-        "stream or collection with at least two objects.")
+        "stream or collection with at least two objects. Collection histories: every sequence of <= 6|8 operations over {add one of 6 "
+        "objects, sort with two comparators, unique, clear} on ONE ObjectPointerCollection, compared with a vector model after every "
+        "operation (state kept inside the collection between operations is exercised).")
 DEADLINE = {"quick": 200, "thorough": 1200}
-PARTS = ["idorder", "pairs", "checkorder", "sort", "triples", "idtriples"]
+PARTS = ["idorder", "pairs", "checkorder", "sort", "opchist", "triples", "idtriples"]
 
 
 def build(ctx):
